@@ -20,7 +20,7 @@ OK, NOPATH, RANGE_ERR = 'Success', 'Path destination unknown', 'Unknown error 25
 def start_simulator():
     s = socket.socket(); s.bind(('127.0.0.1', 0)); port = s.getsockname()[1]; s.close()
     p = subprocess.Popen([sys.executable, '-m', 'cpppo.server.enip', '--no-udp', '-a', '127.0.0.1:%d' % port] +
-                         ['%s=%s[%d]' % (k, v[0], v[1]) for k, v in TAGS.items()] + ['X=REAL', 'Y=LREAL', 'Z=DINT', 'BIG=DINT[16600]', 'E1=DINT[4]', 'E2=INT[4]', 'E3=REAL[4]', 'E4=DINT[4]', 'E5=SINT[4]'],      # 13 tags without an address: the 10th and later get two-digit attribute numbers
+                         ['%s=%s[%d]' % (k, v[0], v[1]) for k, v in TAGS.items()] + ['X=REAL', 'Y=LREAL', 'Z=DINT', 'BIG=DINT[16600]', 'E1=DINT[4]', 'E2=INT[4]', 'E3=REAL[4]', 'E4=DINT[4]', 'E5=SINT[4]', 'E6=LINT[4]'],      # 13 tags without an address: the 10th and later get two-digit attribute numbers
                          stdout=subprocess.DEVNULL, stderr=subprocess.DEVNULL, cwd='/')
     for _ in range(150):
         try:
@@ -114,6 +114,12 @@ def pylogix_scalars_and_big(port, rng, spec=None):
                 r = comm.Write('%s[0]' % nm, vs)
                 if r.Status != OK:
                     problems.append(dict(operation='Write %s[0] = %r' % (nm, vs), got=r.Status, expected=OK))
+            # 64-bit integers, written more than once on the same connection and on the next
+            late['E6'] = [2 ** 40 + 1, -5, 6, -2 ** 62]
+            for vs in ([1, 2, 3, 4], [-1, 2 ** 33, 0, 9], late['E6']):
+                r = comm.Write('E6[0]', vs)
+                if r.Status != OK:
+                    problems.append(dict(operation='Write E6[0] = %r (LINT; repeated writes)' % (vs,), got=r.Status, expected=OK))
             for nm, vs in late.items():
                 r = comm.Read('%s[0]' % nm, 4)
                 if (list(r.Value or []), r.Status) != (vs, OK):
